@@ -277,6 +277,16 @@ def rules(ctx):
     # after its cleaning the sampling-based personalisation writes into a clone only (same rule as C13.R3b)
     from .c13 import r3b_after_cleaning
     r13_fresh_samplers_every_run(ctx)
+    # a value read from the state may be one memory cell shown to every individual (the expanded prior mode): written in place for some
+    # individuals, it changes for all of them - and the tensor may also be the model's own parameter (same rule as C01.R4b)
+    from ._shared import inplace_on_state_values
+    ctx.rule("C07.R16", "no in-place write into a tensor read from a state (a broadcast view is shared by every individual)", 8)
+    sites_, holders_ = inplace_on_state_values(ctx)
+    for fn_, node_, desc_ in sites_:
+        ctx.violation("C07.R16", fn_, node_, desc_ + ": the tensor can be a broadcast view shared by all individuals (and by the model's parameter), so the write made for some individuals is "
+                      "seen by every other one - their start points and estimates then depend on another individual's data")
+    for fn_, names_ in holders_:
+        ctx.ok("C07.R16", fn_, fn_.node, f"locals aliasing state values {names_}: never written in place", construct=f"def {fn_.name}")
     # "position-indexed random draws": the per-subject working states (whose preparation draws the subject's starting point) are created in the
     # order of the cohort, not in an order computed from the subjects' data (same rule as C17.R1)
     # ... and the best draw of an individual is picked along that individual's own chain, component by component (same rule as C17.R3)
